@@ -21,7 +21,9 @@ RESULT_TYS = ("std::result::Result<",)
 OPTION_TYS = ("std::option::Option<",)
 
 
-HANDLE_TYS = ("std::cell::RefMut<", "std::cell::Ref<", "std::collections::hash_map::Entry<",
+HANDLE_TYS = ("std::slice::IterMut<", "std::slice::Iter<", "std::collections::hash_map::IterMut<", "std::collections::hash_map::ValuesMut<",
+              "std::option::Option<&", "std::iter::Enumerate<std::slice::IterMut<", "std::iter::Rev<std::slice::IterMut<",
+              "std::cell::RefMut<", "std::cell::Ref<", "std::collections::hash_map::Entry<",
               "std::collections::hash_map::OccupiedEntry<", "std::collections::hash_map::VacantEntry<",
               "std::collections::btree_map::Entry<", "std::vec::Drain<", "std::collections::hash_map::Drain<")
 
@@ -31,8 +33,24 @@ def is_handle_ty(ty):
     return ty.startswith(HANDLE_TYS)
 
 
+RO_HANDLES = ("std::slice::Iter<", "std::cell::Ref<", "std::collections::hash_map::Iter<", "std::collections::btree_set::Iter<",
+              "std::iter::Enumerate<std::slice::Iter<", "std::iter::Zip<std::slice::Iter<")
+
+
+def is_readonly_iter_ref(ty):
+    """`&mut I` where I is an iterator/handle that only holds a SHARED borrow: advancing it cannot change the collection"""
+    if not ty.startswith("&mut "):
+        return False
+    inner = ty[5:]
+    if inner.startswith(RO_HANDLES):
+        return True
+    if inner.startswith("std::option::Option<&") and not inner.startswith("std::option::Option<&mut") and not inner.startswith("std::option::Option<&'_ mut"):
+        return True
+    return False
+
+
 def is_mut_access_ty(ty):
-    return ty.startswith("&mut") or ty.startswith(("std::cell::RefMut<", "std::collections::hash_map::Entry<",
+    return ty.startswith("&mut") or ty.startswith(("std::option::Option<&mut", "std::cell::RefMut<", "std::collections::hash_map::Entry<",
                                                     "std::collections::hash_map::OccupiedEntry<", "std::collections::hash_map::VacantEntry<"))
 
 
@@ -88,7 +106,7 @@ class Origins:
                 elif kind == "call":
                     t = obj
                     nm = t.callee_name()
-                    if t.args and t.args[0].place is not None and (nm in BORROWING or nm in ("unwrap", "expect", "get_mut", "insert", "or_insert", "or_insert_with", "into_mut")) and self._is_ptr_like_result(l):
+                    if t.args and t.args[0].place is not None and (nm in BORROWING or nm in ("unwrap", "expect", "get_mut", "insert", "or_insert", "or_insert_with", "into_mut", "next", "next_back", "enumerate", "rev", "take", "skip")) and self._is_ptr_like_result(l):
                         o = self.of_place(t.args[0].place, stack + (l,), value=True)
                         if o is not None and nm in ("index_mut", "index", "get_mut", "get", "iter_mut", "iter", "first_mut", "last_mut", "entry", "values_mut"):
                             o = o.extend(["[]"])
@@ -322,10 +340,19 @@ class PathEnumerator:
     @staticmethod
     def path_facts(p):
         """[(cond_term, truth)] for the bool branches taken along a recorded path"""
+        from .terms import mk, const
         out = []
         for e in p.events:
-            if e["kind"] == "branch" and e.get("discr_ty") == "bool" and e["value"] in (0, 1):
+            if e["kind"] != "branch" or e.get("cond") is None:
+                continue
+            if e.get("discr_ty") == "bool" and e["value"] in (0, 1):
                 out.append((e["cond"], bool(e["value"])))
+            elif e.get("discr_ty") in ("usize", "u64", "u32", "u8", "u16", "i32", "i64", "isize"):
+                if isinstance(e["value"], int):
+                    out.append((mk("Eq", e["cond"], const(e["value"])), True))
+                elif e["value"] == "otherwise":
+                    for v in e.get("arm_values", ()):
+                        out.append((mk("Eq", e["cond"], const(v)), False))
         return out
 
     def _walk(self, bb, blocks, evs, env, cls, backcount, state):
@@ -347,7 +374,10 @@ class PathEnumerator:
         for si, st in enumerate(blk.stmts):
             if st.k == "assign":
                 ev = self._assign(st, bb, si, env, cls)
-                if ev is not None:
+                if isinstance(ev, list):
+                    for e1 in ev:
+                        evs, state = self._push(evs, state, e1)
+                elif ev is not None:
                     evs, state = self._push(evs, state, ev)
         t = blk.term
         k = t.k
@@ -418,7 +448,8 @@ class PathEnumerator:
                     e2[dl] = 1
                     for x in chain:
                         e2[x] = 1
-                evs2, state2 = self._push(evs, state, {"kind": "branch", "bb": bb, "local": dl, "value": ov if ov is not None else "otherwise", "span": t.span, "cond": cond, "discr_ty": dty})
+                evs2, state2 = self._push(evs, state, {"kind": "branch", "bb": bb, "local": dl, "value": ov if ov is not None else "otherwise", "span": t.span, "cond": cond, "discr_ty": dty,
+                                                       "arm_values": tuple(v for v, _ in arms)})
                 c2 = self._refine_cls(bb, dl, ov, cls) if ov is not None else cls
                 yield from self._next(bb, other, blocks, evs2, e2, c2, backcount, state2)
             return
@@ -552,6 +583,24 @@ class PathEnumerator:
             return None
         # store through a projection: is it a write into memory rooted at a parameter / tracked local?
         o = self.origins.of_place(pl)
+        if o is not None and o.root[0] == "param" and not o.path and len(pl.proj) == 1 and pl.proj[0]["k"] == "deref":
+            # `*self = <value>`: a store to every field; expand through a constructor call when the value is one
+            v = self.tb.rvalue(rv, bb, si)
+            if v[0] == "call" and self.prog is not None and self.prog.fn(v[1]) is not None and not self.prog.fn(v[1]).loop_heads():
+                cf = self.prog.fn(v[1])
+                sub = {i + 1: a for i, a in enumerate(v[2])}
+                v2 = TermBuilder(cf, self.prog, sub, depth=1).return_term()
+                from .terms import _closure_hook
+                _closure_hook[0] = self.tb._apply_closure_hook
+                if v2[0] == "adt":
+                    v = v2
+            if v[0] == "adt":
+                evs = []
+                for fname, ft in v[3]:
+                    evs.append({"kind": "write", "root": o.root, "path": (fname,), "how": "store", "callee": None, "name": None,
+                                "value": ft, "value_local": None, "args": [], "bb": bb, "idx": si, "span": st.span,
+                                "origin_fn": self.fn.key, "place": str(pl) + "." + fname, "via": (), "whole_self": True})
+                return evs
         if o is not None and (o.root[0] == "param" or pl.proj and pl.proj[0]["k"] == "deref"):
             src = None
             if rv.k == "use" and rv.ops[0].place is not None and rv.ops[0].place.is_local():
@@ -638,7 +687,7 @@ class PathEnumerator:
             ty, o = pa
             if ty is None or o is None:
                 continue
-            if not is_mut_access_ty(ty):
+            if not is_mut_access_ty(ty) or is_readonly_iter_ref(ty):
                 continue
             if name in NON_MUTATING:
                 continue
